@@ -822,6 +822,29 @@ def unloaded_code(repo):
             ("minidump/minidump.rs", "MinidumpUnloadedModuleList::read", guard)]
 
 
+def print_context_sites(repo):
+    """who writes and who reads the thread_local SERIALIZATION_CONTEXT (the pointer width every printed address depends on):
+    every call of set_print_context( and every SERIALIZATION_CONTEXT.with( in minidump-processor/src, with the enclosing fn and,
+    for a call inside a fn body, whether it is the FIRST statement of that body"""
+    out = []
+    for f in sorted(x for x in FILES if x.startswith("minidump-processor/src/")):
+        sc = Scan(os.path.join(repo, f), label_of(f))
+        s = sc.s
+        for m in re.finditer(r"(\bfn\s+)?\bset_print_context\s*\(", s):
+            if m.group(1):
+                continue
+            spans = sorted((a, b, n) for a, b, n in sc.fn_spans if a < m.start() < b)
+            first = bool(spans) and norm(s[spans[-1][0] + 1:m.start()]) in ("self.", "state.")
+            out.append((label_of(f), sc.fn_at(m.start()), "call" + ("|first statement" if first else "|NOT the first statement")))
+        for m in re.finditer(r"\bSERIALIZATION_CONTEXT\s*\.\s*with\s*\(", s):
+            cl = match_close(s, s.find("(", m.end() - 1))
+            body = norm(sc.src[m.start():cl + 1])
+            out.append((label_of(f), sc.fn_at(m.start()), ("write:" if "borrow_mut" in body else "read:") + body[:160]))
+    if not out:
+        die("no use of SERIALIZATION_CONTEXT / set_print_context found in minidump-processor (how do the printers learn the pointer width now?)")
+    return out
+
+
 def label_of(f):
     return f.replace("minidump-", "").replace("/src/", "/")
 
@@ -866,6 +889,7 @@ def main():
     await_callees, unwinder_async_fns = walk_awaits(repo)
     ordered_sites, ordered_decls = scan_ordered(repo)
     unloaded_texts = unloaded_code(repo)
+    pctx = print_context_sites(repo)
     if not ordered_sites or not ordered_decls:
         die("no BTreeMap / BTreeSet iteration or field found (the extraction is broken: StackFrame.unloaded_modules is a BTreeMap)")
     o = ["(* GENERATED by translate/c13_sites.py from minidump-processor, minidump-unwind and breakpad-symbols sources — do not edit. *)",
@@ -898,7 +922,8 @@ def main():
     for title, name, lst in [
             ("every iteration over a BTreeMap / BTreeSet (ascending by key, whatever the insertion order): for loops as written, method sites as receiver.method(", "ordered_iteration_sites", ordered_sites),
             ("every struct field declared as a BTreeMap / BTreeSet: (file, struct.field, type)", "ordered_container_fields", ordered_decls),
-            ("code that C13/Model.v (cert_of) and C13/Unloaded.v model, as written (whitespace and comments removed)", "pinned_model_code", unloaded_texts)]:
+            ("code that C13/Model.v (cert_of) and C13/Unloaded.v model, as written (whitespace and comments removed)", "pinned_model_code", unloaded_texts),
+            ("the thread_local print context (pointer width of every printed address): every call of set_print_context and every access of the cell", "print_context_sites", pctx)]:
         o.append("(* %s *)" % title)
         o.append("Definition %s : list (string * string * string) := [" % name)
         o.append(";\n".join("  (%s, %s, %s)" % tuple(coq_str(x) for x in t) for t in lst))
